@@ -362,3 +362,24 @@ def no_hidden_state(chk, repo, pid):
                f'so the result is not a function of the arguments alone', loc)
     chk.ob(clause, 'E4-module-state', '+'.join(mods), 'no hidden state', not bad, f'{n} functions scanned', '')
     return eff
+
+
+class Remap:
+    """Route the obligations of a shared rule into another property's clause
+    (obligations of clauses that are not mapped are dropped)."""
+
+    def __init__(self, chk, mapping):
+        self._chk, self._map = chk, mapping
+
+    def ob(self, clause, *a, **k):
+        if clause in self._map:
+            return self._chk.ob(self._map[clause], *a, **k)
+
+    def clause(self, *a, **k):
+        pass
+
+    def require(self, *a, **k):
+        return self._chk.require(*a, **k)
+
+    def __getattr__(self, name):
+        return getattr(self._chk, name)
